@@ -50,14 +50,17 @@ def project_frame(text, uni, sid_rev):
 
 
 class Recorder:
-    def __init__(self, storage, uni, nconns, sid_map):
+    def __init__(self, storage, uni, nconns, sid_map, same_addr=False):
         self.st = storage
         self.uni = uni
         self.log = []
         self.sid_map = sid_map                      # sid symbol -> concrete string
         self.sid_rev = {v: k for k, v in sid_map.items()}
-        self.addr = {c: "10.0.0.%d" % (c + 1) for c in range(nconns)}
+        self.same_addr = same_addr
+        self.addr = {c: ("10.0.0.1" if same_addr else "10.0.0.%d" % (c + 1)) for c in range(nconns)}
         self.conn_of_addr = {v: c for c, v in self.addr.items()}
+        self.cid_conn = {}       # id(ClientID object) -> (weak reference, c)
+        self.task_conn = {}      # handler task -> c
         self.gens = {}           # id(sub object) -> gen
         self.keep = []           # keep sub objects alive so ids are not reused
         self.task_gen = {}       # query task -> (c, sid, gen)
@@ -68,7 +71,22 @@ class Recorder:
 
     # ---- helpers
     def conn_of(self, client_id):
-        return self.conn_of_addr.get(str(client_id).rsplit("-", 1)[0], -1)
+        """which connection a ClientID object belongs to.  With distinct remote addresses the address says it; when all
+        connections share one address (and the random token is pinned, `same_addr`) the object is recognised by identity: it
+        is first seen inside the handler task of its own connection."""
+        if not self.same_addr:
+            return self.conn_of_addr.get(str(client_id).rsplit("-", 1)[0], -1)
+        import weakref
+
+        ent = self.cid_conn.get(id(client_id))
+        if ent is not None and ent[0]() is client_id:
+            return ent[1]
+        c = self.task_conn.get(asyncio.current_task(), -1)
+        try:
+            self.cid_conn[id(client_id)] = (weakref.ref(client_id), c)
+        except TypeError:
+            pass
+        return c
 
     def gen_of(self, sub):
         g = self.gens.get(id(sub))
@@ -323,7 +341,7 @@ def _is_background(task):
     return name.startswith("Periodic.") or name.startswith("StatsCollector") or "analysis" in name
 
 
-async def run_connections(st, uni, nconns, schedule, sid_map, rate_limiter=None, idle_timeout=8.0):
+async def run_connections(st, uni, nconns, schedule, sid_map, rate_limiter=None, idle_timeout=8.0, same_addr=False):
     """
     schedule: list of steps
        ("open", c)                       start the handler of connection c
@@ -337,7 +355,16 @@ async def run_connections(st, uni, nconns, schedule, sid_map, rate_limiter=None,
     from nostr_relay import web
     from nostr_relay.rate_limiter import NullRateLimiter
 
-    rec = Recorder(st, uni, nconns, sid_map)
+    # same_addr: every connection comes from one remote address and the relay's random connection token comes out the same
+    # for all of them (a possible outcome of the draw): connections must still be told apart
+    rec = Recorder(st, uni, nconns, sid_map, same_addr=same_addr)
+    from nostr_relay import util as _util
+    import types as _types
+
+    real_secrets = _util.secrets
+    if same_addr:
+        _util.secrets = _types.SimpleNamespace(**{k: getattr(real_secrets, k) for k in dir(real_secrets) if not k.startswith("__")})
+        _util.secrets.token_hex = lambda n=None: "ab" * (n or 32)
     # the handler throttles misbehaving clients with real sleeps (2, 4, 8 ... seconds): give web.py its own view of
     # the asyncio module in which sleep() only yields, and record what it asked for
     import types
@@ -369,6 +396,7 @@ async def run_connections(st, uni, nconns, schedule, sid_map, rate_limiter=None,
         rl.is_limited = is_limited
 
     async def handler(cn):
+        rec.task_conn[asyncio.current_task()] = cn.c
         try:
             await web.start_client(st, cn.ws_send, cn.ws_recv, cn.ws_close, NullLog(), rate_limiter=rl,
                                    remote_addr=rec.addr[cn.c])
@@ -482,6 +510,7 @@ async def run_connections(st, uni, nconns, schedule, sid_map, rate_limiter=None,
     finally:
         rec.uninstall()
         web.asyncio = real_asyncio
+        _util.secrets = real_secrets
     rec.log.append({"a": "LimiterCalls", "calls": rec.limiter_calls}) if rec.limiter_calls else None
     return rec.log, {c: {"result": cn.result, "close_code": cn.closed_code} for c, cn in conns.items()}, rec.errors
 
